@@ -11,6 +11,7 @@ GENERATORS = [
     ("gen_serde", "generate", "GenSerde.v"),
     ("gen_styles", "generate_styles", "GenStyles.v"),
     ("gen_styles", "generate_acronyms", "GenAcronyms.v"),
+    ("gen_lock", "generate", "GenLock.v"),
 ]
 
 
